@@ -158,6 +158,10 @@ def build_universe(crng, size):
         if "://" in target:
             push("http://r.example/r?url=" + quote(target, safe=""))
             push("https://l.example/l.php?u=" + quote(target, safe="") + "&h=x")
+            if "#" not in target and "?" not in target and "|" not in target and crng.random() < 0.7:
+                # the same, unquoted: '://' inside a query and inside a fragment
+                push("http://r.example/go?u=" + target)
+                push("http://r.example/p#" + target)
     while len(urls) < size:
         s = crng.choice(schemes)
         h = crng.choice(hosts)
